@@ -65,6 +65,12 @@ impl ResumeState {
 
     /// Load resume state from destination directory
     pub fn load(destination: &Path) -> Result<Option<Self>> {
+        Self::load_with(destination, true)
+    }
+
+    /// Load resume state; an unreadable or invalid state file is removed only when
+    /// `remove_invalid` is set (a dry run must leave it where it is)
+    pub fn load_with(destination: &Path, remove_invalid: bool) -> Result<Option<Self>> {
         let state_path = destination.join(STATE_FILE_NAME);
 
         if !state_path.exists() {
@@ -86,7 +92,9 @@ impl ResumeState {
             Err(e) => {
                 tracing::warn!("Failed to parse resume state (corrupted JSON): {}", e);
                 tracing::info!("Deleting corrupted state file and starting fresh");
-                Self::delete(destination)?;
+                if remove_invalid {
+                    Self::delete(destination)?;
+                }
                 return Ok(None);
             }
         };
@@ -95,7 +103,9 @@ impl ResumeState {
         if let Err(e) = state.verify_integrity() {
             tracing::warn!("Resume state failed integrity check: {}", e);
             tracing::info!("Deleting invalid state file and starting fresh");
-            Self::delete(destination)?;
+            if remove_invalid {
+                Self::delete(destination)?;
+            }
             return Ok(None);
         }
 
